@@ -20,6 +20,7 @@ ASSUMPTIONS = [
 ]
 SOLVERS = ("AndersonCD", "GroupBCD", "MultiTaskBCD", "GramCD", "ProxNewton", "GroupProxNewton", "FISTA", "LBFGS", "PDCD_WS")
 EXTRA = [("FISTA", "Quadratic", "L1", "denseF"), ("FISTA", "Logistic", "L1", "denseF"), ("FISTA", "Quadratic", "L1", "csc"),
+         ("FISTA", "Logistic", "L1", "csc"),
          ("FISTA", "QuadraticSVC", "IndicatorBox", "denseF"),
          ("PDCD_WS", "SqrtQuadratic", "L1", "denseF"), ("PDCD_WS", "Pinball", "L1", "denseF")]
 
